@@ -280,18 +280,10 @@ class BeltStore(Store):
             # 4) Drop the event token
             self.reserved_events.pop(ev_idx)
 
-            # 5) Remove it from ready_items wherever it currently is
-            try:
-                self.ready_items.remove(item)
-            except ValueError:
+            # 5) The reservation never removed the item from ready_items: releasing it
+            #    only unbinds it, so it keeps its place in the service order
+            if not any(it is item for it in self.ready_items):
                 raise RuntimeError(f"Item {item!r} not found in ready_items during cancel.")
-
-            # 6) Compute new insertion index
-           
-            insert_idx = len(self.ready_items) - len(self.reserved_events) - 1
-            
-            # 7) Re‑insert it
-            self.ready_items.insert(insert_idx, item)
 
             # 8) Trigger any other pending reservations
             self._trigger_reserve_get(None)
@@ -395,9 +387,11 @@ class BeltStore(Store):
             Called when a process reserves an item.
             But do NOT remove it yet—just record the exact item.
             """
-            j = len(self.reserved_events)
-           
-            item = self.ready_items[j]
+            # the ready items that no other granted reservation holds, in arrival order
+            unreserved = [it for it in self.ready_items
+                          if not any(it is r for r in self.reserved_items)]
+            item = unreserved[0]
+
             
 
             # record the reservation
